@@ -16,6 +16,10 @@ WHOLE_NOTE = ("Sampling, not enumeration: a clean batch is evidence, not proof. 
               "UDP-multicast transport is outside the simulation.")
 
 CHECKS = {
+ "C15": dict(
+  text="Sender->link->receiver simulation on the fake clock: writer tracks with exact 64-bit tick indices (seeded clock rates incl. arbitrary ones, initial timestamps, forward/backward/huge steps crossing 2^32 repeatedly), real rtpsender.Sender (reports on its ticker), a link giving packets and reports independent delays (all interleavings), real rtpreceiver.Receiver and rtptime.GlobalDecoder, wall-clock offsets from 1970 to 2036; oracles: PTS differences equal the exact accumulated signed 32-bit steps, later tracks land on the leading timeline, PacketNTP within one tick + NTP rounding of the writer's instant (math/big reference), ntp.Decode(ntp.Encode(t)) within 1 ns.",
+  note="Real: pkg/rtptime, pkg/ntp, pkg/rtpsender, pkg/rtpreceiver. Simulated: clock (testing/synctest), link delays. The late-track clause has no tolerance in the statement; the oracle allows 2 ticks of the new track + 1 tick of the leading clock.",
+  tech="deterministic simulation on a fake clock: seeded interleaving search, exact-arithmetic reference", ref="3.10"),
  "C16": dict(
   text="Seeded search over fully controlled interleavings of the real RingBuffer and asyncprocessor.Processor: every goroutine parks at every lock acquisition, unlock->broadcast gap and processor step, one is released per step by H(seed,step); each recorded history is checked by porcupine against a bounded-FIFO model plus direct exactly-once / order / after-close / lost-wake-up / OnError oracles. Sampling, not enumeration: a clean batch is evidence, not proof.",
   note="Interleavings are explored at the granularity of the inserted yield sites; code between two sites runs atomically w.r.t. other controlled goroutines. Trusted: Go runtime sync primitives, testing/synctest quiescence detection, porcupine.",
@@ -27,6 +31,10 @@ CHECKS = {
   text="Whole-system deterministic simulation with a scripted raw RTSP client: seeded request sequences (10 methods x no/right/wrong Session header, 1-2 connections, pipelining, every chunking incl. 1-byte reads, 5 application handler subsets, UDP offered or not) judged request by request against an executable model of the RFC 2326 session state machine written from the statement (success/error class, next state via ServerSession.State(), when the session ends, one response per request in order with CSeq echoed, server alive afterwards, OnSessionClose exactly once); and an expiry workload on the fake clock (shipped and seeded timeouts): a real Client left running as live peer, fully silent scripted peers, keep-alive-only and media/RTCP-only peers over UDP and TCP, with 'never expired' / 'closed within timeout + one check period + injected-delay budget' oracles.",
   note=WHOLE_NOTE + " The model is silent (either outcome accepted) where RFC 2326 and common server practice differ or the statement is not explicit; the list is in the evidence assumptions.",
   tech="deterministic simulation: scripted-peer sequences vs executable reference model; simulated-time expiry", ref="3.2"),
+ "C07": dict(
+  text="Codec-over-lossy-link simulation for the 12 stateful depacketizers: real encoder -> packets tagged (frame, position) -> simulated link whose seeded, explicit fault schedule drops / duplicates / late-duplicates / swaps packets and drops whole frames -> real decoder; history oracle: every frame that is clean by the statement's definition (its packets and its predecessor's arrived once, in order, contiguously) is returned intact exactly once, no later than the Decode call of the next frame's first packet; no panic; a fault-free configuration runs alongside. Seeded search over fault schedules and frame shapes, not enumeration.",
+  note="Real: the encoders and decoders of pkg/format/rtp*. Simulated: the link (packet fates). No clock or concurrency is involved; frames are valid inputs built by the harness. What a decoder returns for frames that are not clean is unconstrained. A stray packet of an older frame landing between two intact frames counts as damage to the frame it precedes (conservative reading).",
+  tech="deterministic simulation: seeded fault-schedule search over a lossy link, history oracle", ref="3.4"),
  "C13": dict(
   text="Whole-system deterministic simulation with Server.Close, ServerStream.Close and Client.Close (from another goroutine) landing at seeded instants between any two protocol steps - idle, mid-handshake, playing, recording, paused, with a writer running, with peers that stopped reading (bounded window) or vanished - and seeded holds at ~40 yield sites on the shutdown paths; oracles: Close latency in simulated time, socket census of the closed object's node, goroutines attributed to the closed object (creator chains) and a complete end-of-run census, open/close notification balance and no packet/request callback after OnSessionClose (global sequence numbers).",
   note=WHOLE_NOTE, tech="deterministic simulation with fault injection: close-point and shutdown-interleaving search, census + callback-history oracle", ref="3.8"),
